@@ -849,28 +849,19 @@ fn finish_attached(out: &mut Out, kind: String, input: Value, model: String, cod
             let own = md.iter().find(|(k, _)| k == DETAILS_BIN).map(|(_, v)| v.clone());
             let oracle = match (&back, why) {
                 (_, Some(w)) => Some(w),
-                (Some((b, d)), None) => match own {
-                    // Observation (not in the property's quantifier): nothing attached at all (code OK,
-                    // no message, no details = empty details bytes) and the caller put a
-                    // grpc-status-details-bin entry of its own into the metadata: that entry is what
-                    // travels.  Judged: it arrives as it was given, and reading it follows the decode
-                    // clauses (never a panic, error or empty when undecodable, values by the
-                    // independent decoder).
-                    Some(v) if st.details().is_empty() => {
-                        out.hist("attached.own_details_entry", "travels (nothing attached)");
-                        if b.details() != v.as_slice() {
-                            Some("nothing attached: the caller's own grpc-status-details-bin entry did not arrive as given".into())
-                        } else {
-                            judge_md(md, b).or_else(|| judge_decode(d, &v))
-                        }
+                // no exception for a grpc-status-details-bin entry of the caller's own (F-C04e, fixed by
+                // ed827503): with something attached it is replaced by the attached details, with
+                // nothing at all attached (empty details bytes) the header is removed - in ALL cases the
+                // details read back are the status's own and the getters see exactly what was attached
+                (Some((b, d)), None) => {
+                    if own.is_some() {
+                        out.hist(
+                            "attached.own_details_entry",
+                            if st.details().is_empty() { "dropped, no details read back (nothing attached: the F-C04e shape)" } else { "replaced by the attached details" },
+                        );
                     }
-                    _ => {
-                        if own.is_some() {
-                            out.hist("attached.own_details_entry", "replaced by the attached details");
-                        }
-                        judge(code, msg, list, md, b, d, st.details())
-                    }
-                },
+                    judge(code, msg, list, md, b, d, st.details())
+                }
                 (None, None) => Some("no status".into()),
             };
             (t, oracle)
@@ -1914,7 +1905,8 @@ fn corpus(out: &mut Out) {
         case_set(out, p, 0, "", &NONE10, 0, &md);
     }
     // the caller's own grpc-status-details-bin entry in the metadata: replaced by the attached details;
-    // when nothing at all is attached (empty details bytes) it is what travels
+    // when nothing at all is attached (empty details bytes) the header is removed and NO details are
+    // read back (F-C04e, fixed by ed827503; before the fix the entry travelled as the details)
     {
         let own = any_bytes(URLS[9], &[0x0a, 0x02, 0x65, 0x6e, 0x12, 0x01, 0x78]);
         let md = vec![(s("x-a"), b"1".to_vec()), (s(DETAILS_BIN), own.clone()), (s(DETAILS_BIN), vec![0xff, 0xff])];
@@ -2006,7 +1998,7 @@ fn replay(out: &mut Out, path: &str) {
     }
 }
 
-const RULE: &str = "set: random ErrorDetails built through the public builders (set_*/add_*/with_*), each of the ten kinds present with probability 1/2, strings over a unicode/empty/long alphabet, 0..7 violations/links/stack entries/metadata pairs, delays None/0/max/sub-second within the protobuf range, attached with Status::with_error_details[_and_metadata], written with add_header, read with from_header_map, decoded with every getter of StatusExt (and of RpcStatusExt on the decoded pb::Status); half of the cases carry user metadata (repeated, binary and reserved names; one in five of those also one or two grpc-status-details-bin entries of the caller's own, a third of which with nothing attached at all) whose arrival is observed and judged; one detail in six is present-but-empty on purpose (None delay, no violations/links, empty strings and maps); vec: the same for random Vec<ErrorDetail> of length 0..8 with repeated kinds (vec.out_of_range: literal RetryInfo delays beyond the protobuf range - judged strictly: unchanged up to i64::MAX seconds, the documented maximum above); built: 0..9 random calls of ErrorDetails::set_*/add_* (adds in runs, sets after adds), the first possibly as the with_* constructor, has_* queries observed, expectation from the harness's own simulation of set = replace / add = append-or-start; every attached case is also read by the independent protobuf reader of wire.rs (code, message, type URLs, field values of every payload); wire: details bytes written from a description of 0..6 details by the harness's own writer with the liberties of the encoding specification (field order, explicit defaults, overwritten singular fields, split singular messages, non-minimal varints, unknown fields, codes outside 0..16), read by StatusExt and judged against the description; hostile: arbitrary bytes as details - random bytes, mutated valid encodings, structured google.rpc.Status with valid/foreign/mutated/random payloads, unknown and near-miss type URLs, Duration boundaries, repeated fields, groups, bad UTF-8, non-minimal and overflowing varints, half of them through the header encoding, judged by no-panic + consistency + the independent reader wherever the specification decides the reading. Non-trivial = at least one detail attached / one builder call / non-empty bytes. Distinct = distinct (kind, model expression).";
+const RULE: &str = "set: random ErrorDetails built through the public builders (set_*/add_*/with_*), each of the ten kinds present with probability 1/2, strings over a unicode/empty/long alphabet, 0..7 violations/links/stack entries/metadata pairs, delays None/0/max/sub-second within the protobuf range, attached with Status::with_error_details[_and_metadata], written with add_header, read with from_header_map, decoded with every getter of StatusExt (and of RpcStatusExt on the decoded pb::Status); half of the cases carry user metadata (repeated, binary and reserved names; one in five of those also one or two grpc-status-details-bin entries of the caller's own, a third of which with nothing attached at all - judged like every other case: the entry never travels, the details read back are the status's own, F-C04e fixed by ed827503) whose arrival is observed and judged; one detail in six is present-but-empty on purpose (None delay, no violations/links, empty strings and maps); vec: the same for random Vec<ErrorDetail> of length 0..8 with repeated kinds (vec.out_of_range: literal RetryInfo delays beyond the protobuf range - judged strictly: unchanged up to i64::MAX seconds, the documented maximum above); built: 0..9 random calls of ErrorDetails::set_*/add_* (adds in runs, sets after adds), the first possibly as the with_* constructor, has_* queries observed, expectation from the harness's own simulation of set = replace / add = append-or-start; every attached case is also read by the independent protobuf reader of wire.rs (code, message, type URLs, field values of every payload); wire: details bytes written from a description of 0..6 details by the harness's own writer with the liberties of the encoding specification (field order, explicit defaults, overwritten singular fields, split singular messages, non-minimal varints, unknown fields, codes outside 0..16), read by StatusExt and judged against the description; hostile: arbitrary bytes as details - random bytes, mutated valid encodings, structured google.rpc.Status with valid/foreign/mutated/random payloads, unknown and near-miss type URLs, Duration boundaries, repeated fields, groups, bad UTF-8, non-minimal and overflowing varints, half of them through the header encoding, judged by no-panic + consistency + the independent reader wherever the specification decides the reading. Non-trivial = at least one detail attached / one builder call / non-empty bytes. Distinct = distinct (kind, model expression).";
 
 fn main() {
     let a = args();
